@@ -53,8 +53,10 @@ Section Fetch.
 
   Record result := mkResult { r_exit : Z; r_file : option (list Z); r_served : Z; r_tried : list Z; r_local_tried : bool }.
 
-  (* mode: 0 default, 1 --direct-only, 2 --transport-only (implies direct-only), 3 --control-fallback *)
-  Definition fetch (mode : Z) (hints : list hint) (local : resp) : result :=
+  (* mode: 0 default, 1 --direct-only, 2 --transport-only (implies direct-only), 3 --control-fallback; expired: the
+     manifest's expiry has passed on the CLI's clock: every transport hint is refused before anything is sent ("Manifest
+     expired"), the control paths are still asked *)
+  Definition fetch (mode : Z) (expired : bool) (hints : list hint) (local : resp) : result :=
     let idx := combine (map Z.of_nat (seq 0 (length hints))) hints in
     let of_kind k := filter (fun e => h_kind (snd e) =? k) idx in
     let ts := sort_prio (of_kind 0) in
@@ -65,7 +67,8 @@ Section Fetch.
     let had_hints := if mode =? 2 then has_t else if mode =? 3 then has_c else has_t || has_c in
     let '(tried, direct) :=
       if negb had_hints then ([], None) else
-      let '(t1, r1) := if mode =? 3 then ([], None) else first_ok attempt_transport ts in
+      let '(t1, r1) := if mode =? 3 then ([], None)
+                       else first_ok (if expired then (fun _ => Failed) else attempt_transport) ts in
       match r1 with
       | Some _ => (t1, r1)
       | None =>
@@ -90,7 +93,7 @@ Section Fetch.
 End Fetch.
 
 (* ---- wire ----
-   input: mode  P (the stored payload: the manifest's hash is sha256 P)  nh  then per hint: kind prio code [bytes when code = 2]
+   input: mode  expired(0/1)  P (the stored payload: the manifest's hash is sha256 P)  nh  then per hint: kind prio code [bytes when code = 2]
           (code: 0 unreachable, 1 refusal, 2 payload, 3 ok without payload)  then the local daemon: code [bytes]
    output: exit code; 0 | 1 file-bytes; served (hint index, 100 local, -1 none); per hint: -1 for a transport hint, else the
    number of control requests it received (1 when it was tried and reachable); the same for the local daemon *)
@@ -108,11 +111,12 @@ Definition reachable (r : resp) : bool := match r with Unreach => false | _ => t
 
 Definition run (input : list Z) : list Z :=
   let '(mode, l) := w_next input in
+  let '(ex, l) := w_next l in
   let '(P, l) := w_bytes l in
   let '(nh, l) := w_next l in
   let '(hints, l) := rd_hints (Z.to_nat nh) l in
   let '(local, _) := rd_resp l in
-  let r := fetch sha256 (sha256 P) mode hints local in
+  let r := fetch sha256 (sha256 P) mode (negb (ex =? 0)) hints local in
   [r_exit r] ++ (match r_file r with None => [0] | Some b => 1 :: o_bytes b end) ++ [r_served r]
   ++ map (fun e => if h_kind (snd e) =? 0 then -1
                    else if existsb (Z.eqb (fst e)) (r_tried r) && reachable (h_resp (snd e)) then 1 else 0)
